@@ -805,6 +805,13 @@ func (g *c13Gen) genPatch() c13Doc {
 	rng := g.rng
 	kd := PickOne(rng, []string{"m", "j", "q"})
 	key := g.key()
+	if kd == "q" && key.kind.ints && key.kind.known {
+		// executeFilterOperation skips the Update when Semantic.DeepEqual(object, filtered) holds; gojq
+		// re-types every number (int64 -> float64), so for objects holding numbers the outcome of that
+		// test depends on Go number types kept by the tracker - outside the model. jq patches therefore
+		// target the string-valued kind (or the unregistered one, which fails before the Get).
+		key = c13Pool[(key.id-1)%4]
+	}
 	k := key.kind
 	m := map[string]any{}
 	gvr := g.coords(m, key)
